@@ -141,3 +141,17 @@ def pyRemove {α : Type} [BEq α] (x : List α) (v : α) : Option (List α) :=
   if x.contains v then some (x.erase v) else none
 
 end Cv.Py
+
+namespace Cv.Py
+
+/-- `min(l)`; `none` = ValueError on an empty list -/
+def pyMin : List Int → Option Int
+  | [] => none
+  | a :: t => some (t.foldl min a)
+
+/-- `max(l)`; `none` = ValueError on an empty list -/
+def pyMax : List Int → Option Int
+  | [] => none
+  | a :: t => some (t.foldl max a)
+
+end Cv.Py
